@@ -59,6 +59,11 @@ func (v *visitor) visit(node ast.Node) reflect.Type {
 	switch n := node.(type) {
 	case *ast.NilNode:
 		t = v.NilNode(n)
+	case *ast.ConstantNode:
+		// A constant inserted by a visitor (the optimizer inserts them after the type check).
+		if n.Value != nil {
+			t = reflect.TypeOf(n.Value)
+		}
 	case *ast.IdentifierNode:
 		t = v.IdentifierNode(n)
 	case *ast.IntegerNode:
